@@ -1072,6 +1072,51 @@ def term_str(t):
     return k
 
 
+def fn_signature(f):
+    """what identifies a function besides its name: container, signature, the multiset of its direct callees"""
+    callees = {}
+    for c in f.calls():
+        n = c.callee or c.resolved or "?"
+        callees[n] = callees.get(n, 0) + 1
+    return {"container": f.id.rsplit("::", 1)[0], "inputs": f.raw.get("inputs", []), "output": f.raw.get("output"), "is_async": bool(f.raw.get("is_async")),
+            "public": f.raw.get("vis") == "Public", "trait": bool(f.raw.get("trait_item") or f.raw.get("in_trait")), "callees": callees, "nblocks": len(f.raw["blocks"])}
+
+
+_REFERENCE = None
+
+
+def reference():
+    global _REFERENCE
+    if _REFERENCE is None:
+        try:
+            _REFERENCE = json.load(open(os.path.join(os.path.dirname(os.path.abspath(__file__)), "reference.json")))
+        except (OSError, ValueError):
+            _REFERENCE = {}
+    return _REFERENCE
+
+
+def _rename_strings(x, fmap, pmap):
+    """rewrite, everywhere in a raw fact tree, function ids (exact or as a `::`-prefix) and field projection names"""
+    if isinstance(x, dict):
+        return {k: _rename_strings(v, fmap, pmap) for k, v in x.items()}
+    if isinstance(x, list):
+        return [_rename_strings(v, fmap, pmap) for v in x]
+    if isinstance(x, str):
+        if pmap and x.startswith("f:"):
+            parts = x.split(":")
+            if len(parts) > 2 and parts[2] in pmap:
+                parts[2] = pmap[parts[2]]
+                return ":".join(parts)
+        if fmap:
+            for new, old in fmap:
+                if x == new:
+                    return old
+                if x.startswith(new + "::"):
+                    return old + x[len(new):]
+        return x
+    return x
+
+
 class DB:
     """All facts of one build configuration (tag): one or more crates."""
     def __init__(self, tag, files, inline=None):
@@ -1085,9 +1130,12 @@ class DB:
         self.traits = {}
         self.crates = []
         self.files = files
+        self.renamed = {"fns": [], "fields": []}
         for f in files:
             with open(f) as fh:
                 raw = json.load(fh)
+            if inline:
+                raw = self._rename_back(raw)
             self.crates.append(raw["crate"])
             for r in raw["fns"]:
                 fn = Fn(self, r)
@@ -1112,6 +1160,99 @@ class DB:
         self.inlined = []
         if inline:
             self._inline_private_helpers(inline)
+
+    def _rename_back(self, raw):
+        """(views only) a private function or a field that a change merely renamed is presented under the name it has on
+        the reference tree (rules/reference.json): same container, same signature, not public API, unique match -- for
+        several candidates the one whose direct callees agree best.  Rules that look a role up by name then find it; a wrong
+        match can only make a rule examine the wrong body, which it reports."""
+        ref = reference().get(self.tag)
+        if not ref or not (raw.get("crate") or "").startswith("ractor"):
+            return raw
+        cur = {}
+        for r in raw["fns"]:
+            if r.get("kind") in ("fn", "method"):
+                cur[r["id"]] = r
+        crate_prefix = raw["crate"] + "::"
+        lost = [k for k in ref["fns"] if k not in cur and (k.startswith(crate_prefix) or k.startswith("<" + crate_prefix))]
+        new = [k for k in cur if k not in ref["fns"]]
+        fmap = []
+        if lost and new:
+            def sig_of_raw(r):
+                callees = {}
+                for b in r["blocks"]:
+                    t = b["term"]
+                    if t["k"] == "call":
+                        info = (t.get("func") or {}).get("fn") or {}
+                        n = info.get("def") or info.get("resolved") or "?"
+                        callees[n] = callees.get(n, 0) + 1
+                return {"container": r["id"].rsplit("::", 1)[0], "inputs": r.get("inputs", []), "output": r.get("output"), "is_async": bool(r.get("is_async")),
+                        "public": r.get("vis") == "Public", "trait": bool(r.get("trait_item") or r.get("in_trait")), "callees": callees}
+            newsig = {k: sig_of_raw(cur[k]) for k in new}
+            def sim(a, b):
+                keys = set(a) | set(b)
+                if not keys:
+                    return 1.0
+                inter = sum(min(a.get(k, 0), b.get(k, 0)) for k in keys)
+                union = sum(max(a.get(k, 0), b.get(k, 0)) for k in keys)
+                return inter / union if union else 1.0
+            cand = {}
+            for L in lost:
+                ls = ref["fns"][L]
+                if ls.get("trait"):
+                    continue
+                cs = [N for N in new if all(newsig[N][k] == ls.get(k) for k in ("container", "inputs", "output", "is_async")) and not newsig[N]["trait"]]
+                if cs:
+                    cand[L] = cs
+            used = set()
+            for L in sorted(cand, key=lambda L: len(cand[L])):
+                cs = [N for N in cand[L] if N not in used]
+                if not cs:
+                    continue
+                # callees may themselves be renamed: compare on the last path segment only if exact names disagree
+                scored = sorted(((sim(ref["fns"][L]["callees"], newsig[N]["callees"]), N) for N in cs), reverse=True)
+                contested = [L2 for L2 in cand if L2 != L and any(N in cand[L2] for N in cs)]
+                if len(cs) == 1 and not contested:
+                    best = cs[0]
+                elif scored[0][0] >= 0.5 and (len(scored) == 1 or scored[0][0] > scored[1][0] + 0.15):
+                    best = scored[0][1]
+                    # the best candidate must not fit a contesting lost function better
+                    if any(sim(ref["fns"][L2]["callees"], newsig[best]["callees"]) > scored[0][0] for L2 in contested):
+                        continue
+                else:
+                    continue
+                used.add(best)
+                fmap.append((best, L))
+        # fields: same ADT, same shape, same types, other names
+        pmap = {}
+        ref_names = set(n for a in ref["adts"].values() for v in a for n, _t in v)
+        for a in raw.get("adts", []):
+            ra = ref["adts"].get(a["id"])
+            if ra is None or len(ra) != len(a.get("variants", [])):
+                continue
+            for v, rv in zip(a["variants"], ra):
+                fl = v.get("fields", [])
+                if len(fl) != len(rv):
+                    continue
+                for fcur, (rname, rty) in zip(fl, rv):
+                    if fcur["name"] != rname and not fcur["name"].isdigit() and fcur["name"] not in ref_names:
+                        # the type may mention renamed things; require equality to stay on the safe side
+                        if fcur["ty"] == rty:
+                            pmap[fcur["name"]] = rname
+        if not fmap and not pmap:
+            return raw
+        # longest ids first so that `a::bc` is not rewritten by the rule for `a::b`
+        fmap.sort(key=lambda p: -len(p[0]))
+        out = _rename_strings(raw, fmap, pmap)
+        if pmap:
+            for a in out.get("adts", []):
+                for v in a.get("variants", []):
+                    for fl in v.get("fields", []):
+                        if fl["name"] in pmap:
+                            fl["name"] = pmap[fl["name"]]
+        self.renamed["fns"] += fmap
+        self.renamed["fields"] += sorted(pmap.items())
+        return out
 
     def _desugar_std_combinators(self):
         """first-order std combinators are presented as the control flow they stand for, so that rules see one form:
